@@ -155,46 +155,51 @@ RAISED = {"kind": "raised", "exact": True, "shape": [], "re": [], "im": [], "dty
 
 
 # ----------------------------------------------------------------------------- one call
-def call(c, ts, w, mask, idx, rs):
+def bind(c, ts, w, mask, idx, rs):
+    """(function, positional args, keyword args) of the call a configuration prescribes.  The argument OBJECTS
+    (containers, arrays) are built once; execute() calls the function cfg.rep times on the very same objects."""
     from tensorly import tenalg
     op = c["op"]
     I = INT_FORMS[c["ity"]]                  # how integer-like arguments are passed
     C = CONTAINERS[c["ct"]]                  # how operand lists are passed
     none = lambda v: None if v < 0 else I(v)
     if op == "mode_dot":
-        return tenalg.mode_dot(ts[0], ts[1], I(c["mode"]), transpose=c["tr"])
+        return tenalg.mode_dot, (ts[0], ts[1], I(c["mode"])), dict(transpose=c["tr"])
     if op == "multi_mode_dot":
-        return tenalg.multi_mode_dot(ts[0], C(ts[1:]), modes=[I(m) for m in c["modes"]] if c["given"] else None,
-                                     skip=none(c["skip"]), transpose=c["tr"])
+        return tenalg.multi_mode_dot, (ts[0], C(ts[1:])), dict(modes=[I(m) for m in c["modes"]] if c["given"] else None,
+                                                              skip=none(c["skip"]), transpose=c["tr"])
     if op == "kronecker":
-        return tenalg.kronecker(C(ts), skip_matrix=none(c["skip"]), reverse=c["reverse"])
+        return tenalg.kronecker, (C(ts),), dict(skip_matrix=none(c["skip"]), reverse=c["reverse"])
     if op == "khatri_rao":
-        return tenalg.khatri_rao(C(ts), weights=w, skip_matrix=none(c["skip"]), mask=mask)
+        return tenalg.khatri_rao, (C(ts),), dict(weights=w, skip_matrix=none(c["skip"]), mask=mask)
     if op == "inner":
-        return tenalg.inner(ts[0], ts[1], n_modes=none(c["n"]))
+        return tenalg.inner, (ts[0], ts[1]), dict(n_modes=none(c["n"]))
     if op == "outer":
-        return tenalg.outer(C(ts))
+        return tenalg.outer, (C(ts),), {}
     if op == "batched_outer":
-        return tenalg.batched_outer(C(ts))
+        return tenalg.batched_outer, (C(ts),), {}
     if op == "tensordot":
         # the configuration carries the mode numbers AS SPELLED (negative = counted from the end, cfg.neg
         # says which arguments); the specification normalises them
         modes = I(len(c["m1"])) if c["mint"] else ([I(m) for m in c["m1"]], [I(m) for m in c["m2"]])
         batched = I(c["b1"][0]) if c["bint"] else ([I(m) for m in c["b1"]], [I(m) for m in c["b2"]])
-        return tenalg.tensordot(ts[0], ts[1], modes, batched_modes=batched)
+        return tenalg.tensordot, (ts[0], ts[1], modes), dict(batched_modes=batched)
     if op == "mttkrp":
         if c["variant"] == "memory":
             from tensorly.tenalg.core_tenalg.mttkrp import unfolding_dot_khatri_rao_memory as f
         else:
             f = tenalg.unfolding_dot_khatri_rao
-        return f(ts[0], (w, C(ts[1:])), I(c["mode"]))
+        return f, (ts[0], (w, C(ts[1:])), I(c["mode"])), {}
     if op == "moment":
-        return tenalg.higher_order_moment(ts[0], I(c["order"]))
+        return tenalg.higher_order_moment, (ts[0], I(c["order"])), {}
     if op == "sampled_kr":
         from tensorly.decomposition._cp import sample_khatri_rao
-        return sample_khatri_rao(C(ts), I(c["ns"]), skip_matrix=none(c["skip"]), indices_list=idx,
-                                 return_sampled_rows=True, random_state=rs)
+        return sample_khatri_rao, (C(ts), I(c["ns"])), dict(skip_matrix=none(c["skip"]), indices_list=idx,
+                                                             return_sampled_rows=True, random_state=rs)
     raise ValueError(op)
+
+
+IDX_FORMS = {"i16": np.int16, "i32": np.int32, "i64": np.int64}      # cfg.idt: caller-supplied sample indices
 
 
 def execute(case):
@@ -209,7 +214,9 @@ def execute(case):
     types = [t_first] + [t_other] * (len(shapes) - 1)
     logged = [draw(rng, s, t) for s, t in zip(shapes, types)]
     ts = [passed(a, t, code) for a, t, code in zip(logged, types, sc)]
-    total = 1.0
+    if c["me"]:                                              # magnitude regime: first operand times 2^me (exact)
+        ts[0] = ts[0] * 2.0 ** c["me"]
+    total = 2.0 ** c["e2"]                                   # ... which contributes 2^e2 to the result
     for code in sc:
         total *= SCALES[code]
     w = mask = idx = None
@@ -228,36 +235,44 @@ def execute(case):
     if op == "sampled_kr" and c["given"]:
         idx = [rng.randint(0, r, size=c["ns"]) for r in _skip(c["rows"], c["skip"])]
         ein["idx"] = [[int(v) for v in ix] for ix in idx]
+        idx = [[int(v) for v in ix] if c["idt"] == "list" else ix.astype(IDX_FORMS[c["idt"]]) for ix in idx]
     rs = np.random.RandomState(rng.randint(0, 2**31 - 1))
     ev = {"id": case["id"], "op": op, "backend": case["backend"], "draw": case["draw"], "cplx": cplx, "cfg": c, "in": ein}
     prev = tenalg.get_backend()
+    outs = []
     try:
         tenalg.set_backend(case["backend"])
         try:
-            res = call(c, ts, w, mask, idx, rs)
+            f, args, kwargs = bind(c, ts, w, mask, idx, rs)
+        except Exception as ex:
+            return {"id": case["id"], "harness_error": "bind: %s: %s" % (type(ex).__name__, ex)}
+        for _ in range(c["rep"]):                # the SAME argument objects for every call
+            try:
+                res = f(*args, **kwargs)
+                if op == "sampled_kr":
+                    kr, indices, rows = res
+                    out = proj(kr, total=total)
+                    out["idx"] = [[int(v) for v in np.asarray(ix).ravel()] for ix in indices]
+                    out["rows"] = [int(v) for v in np.asarray(rows).ravel()]
+                elif op == "moment":
+                    # the specification states  n_samples * moment = sum of outer products  (integers)
+                    n = c["shape"][0]
+                    out = proj(res, scale=n, total=total)
+                    if not out["exact"]:      # fl(S / n) * n may be off by an ulp for n = 3: named tolerance 1e-9
+                        a = np.asarray(res, dtype=np.float64) * n / total
+                        if np.all(np.isfinite(a)) and np.all(np.abs(a - np.rint(a)) <= 1e-9):
+                            out["exact"] = True
+                else:
+                    out = proj(res, total=total)
+            except Exception as ex:                  # the outcome is data for the specification (clause Outcome)
+                out = dict(RAISED, exc=type(ex).__name__, msg=str(ex)[:160])
             if op == "sampled_kr":
-                kr, indices, rows = res
-                out = proj(kr, total=total)
-                out["idx"] = [[int(v) for v in np.asarray(ix).ravel()] for ix in indices]
-                out["rows"] = [int(v) for v in np.asarray(rows).ravel()]
-            elif op == "moment":
-                # the specification states  n_samples * moment = sum of outer products  (integers)
-                n = c["shape"][0]
-                out = proj(res, scale=n, total=total)
-                if not out["exact"]:      # fl(S / n) * n may be off by an ulp for n = 3: named tolerance 1e-9
-                    a = np.asarray(res, dtype=np.float64) * n
-                    if np.all(np.isfinite(a)) and np.all(np.abs(a - np.rint(a)) <= 1e-9):
-                        out["exact"] = True
-            else:
-                out = proj(res, total=total)
-        except Exception as ex:                  # the outcome is data for the specification (clause Outcome)
-            out = dict(RAISED, exc=type(ex).__name__, msg=str(ex)[:160])
+                out.setdefault("idx", [])
+                out.setdefault("rows", [])
+            outs.append(out)
     finally:
         tenalg.set_backend(prev)
-    if op == "sampled_kr":
-        out.setdefault("idx", [])
-        out.setdefault("rows", [])
-    ev["out"] = out
+    ev["outs"] = outs
     return ev
 
 
@@ -281,7 +296,7 @@ def _report(chk, events, rejects):
         ev = by_id.get(rid)
         slim = None
         if ev is not None:
-            slim = {k: ev[k] for k in ("id", "op", "backend", "cplx", "in", "out")}
+            slim = {k: ev[k] for k in ("id", "op", "backend", "cplx", "in", "outs")}
         chk.violation(rid, clause, event=slim)
 
 
@@ -328,6 +343,9 @@ def run(chk, opts):
         "the configurations by the specification, one combination per configuration; excluded because the unchanged tree fails on them "
         "and the docstrings do not promise them: tensordot(modes=k / batched_modes=k) with k a NumPy integer (TypeError in both backends), "
         "einsum khatri_rao(tuple, weights=w) without skip_matrix (TypeError)",
+        "cfg.rep: the call is repeated 1-3 times on the same argument objects and every call must return the documented value; "
+        "cfg.me: the first operand is scaled by 2^-600 / 2^500 (moments 2^-300 / 2^300), divided out exactly; sampled Khatri-Rao: caller-supplied "
+        "indices as list / int16 / int32 / int64 and row-count products up to 2*10^5 (row numbers beyond int16; beyond int32 is outside TLC's integers)",
         "dtype combinations: values stay exact because float operands carry dyadic scales prescribed by the specification (cfg.sc); the "
         "result dtype itself is not checked here (C18)",
         "higher_order_moment on real data only; MTTKRP with real weights only; tensordot output mode order: two readings accepted",
